@@ -16,7 +16,7 @@ RULE = (
     "racing legs: the same threads, but the extractor (this thread) is instrumented at instruction level in inspect_frame, _parse_exception_table, unwrap_thread, unwrap_stackslice and its try_from; at every legal "
     "GIL-release boundary (after a CALL returns, before a backward jump, at RESUME) the tape may let a target take 1-4 steps (move in the frame, leave a with, return, call deeper, re-enter, exit the thread). "
     "Oracles: no signal death, no exception from extract, every reported frame belongs to the inspected thread, lowlevel.inspect_frame either raises or its (blocks, stack) name exactly the managers the frame had entered "
-    "at one of the positions the target occupied during the call; on 3.9 / 3.10 additionally every ctypes.cast(address, py_object) inside inspect_frame is judged when it happens against an ownership log of the inspected "
+    "at one of the positions the target occupied during the call; on 3.11 / 3.12 every slot read (py_object array item) must address a slot the frame owns at that moment (same frame storage, below the current depth); on 3.9 / 3.10 every ctypes.cast(address, py_object) inside inspect_frame is judged when it happens against an ownership log of the inspected "
     "frame's value stack (what each slot owned at the start and after every step of the target, objects pinned so that addresses cannot be recycled): dereferencing an address the frame no longer owns is a violation "
     "(c07_stale_pointer_dereferenced) and is withheld. distinct = (leg, boundary kind, extractor function, target progress class) tuples and blocked-stack shapes"
 )
@@ -91,6 +91,72 @@ class CastGuard(object):
         return self._real.cast(obj, typ)
 
 
+class SlotGuard(object):
+    """Stands in for the `ctypes` module inside stackscope._lowlevel_cpython_311.
+
+    There inspect_frame reads a value-stack slot and takes the reference in one step
+    (`(py_object * n).from_address(a)[i]`).  That is memory-safe only if, at that
+    moment, the address still lies inside the part of the value stack that the frame
+    owns: not after the frame has finished (its InterpreterFrame has moved into the
+    frame object and the thread's stack memory is reused or returned), not above the
+    current stack depth (a stale pointer).  The inspected thread is parked whenever the
+    inspecting code runs, so the harness knows exactly what the frame owns
+    (world.stackdepth.owned_slot_range) and judges every such read when it happens;
+    an unsafe one is withheld and recorded."""
+
+    def __init__(self, real, impl):
+        self._real = real
+        self.impl = impl
+        self.frame = None
+        self.log = None
+        self.stale = []
+        self.checked = 0
+        guard = self
+
+        class _Arr(object):
+            def __init__(self, addr, n):
+                self.addr = addr
+                self.n = n
+                self.real = (real.py_object * n).from_address(addr)
+
+            def __getitem__(self, i):
+                fr = guard.frame
+                if fr is not None and isinstance(i, int) and 0 <= i < self.n:
+                    from ..world import stackdepth
+
+                    rng = stackdepth.owned_slot_range(fr, guard.impl)
+                    if rng is not None:
+                        guard.checked += 1
+                        base, n = rng
+                        a = self.addr + i * stackdepth.WS
+                        if not (base <= a < base + n * stackdepth.WS):
+                            guard.stale.append(a)
+                            return _Stale
+                return self.real[i]
+
+            def __len__(self):
+                return self.n
+
+        class _ArrType(object):
+            def __init__(self, n):
+                self.n = n
+
+            def from_address(self, addr):
+                return _Arr(addr, self.n)
+
+        class _PyObj(object):
+            def __mul__(self, n):
+                return _ArrType(n)
+
+            def __getattr__(self, name):
+                return getattr(real.py_object, name)
+
+        self.py_object = _PyObj()
+
+    def __getattr__(self, name):
+        return getattr(self._real, name)
+
+
 class _StaleType(object):
     value = None
 
@@ -112,6 +178,12 @@ def setup(leg, params):
     # first-use self-test of the analysis must not happen inside a run
     _ll._check_trickery_available()
     _ll.inspect_frame(sys._getframe())
+    if sys.version_info >= (3, 11) and params.get("mode") == "racing":
+        from stackscope import _lowlevel_cpython_311 as impl
+
+        if not isinstance(impl.ctypes, SlotGuard):
+            GUARD = SlotGuard(impl.ctypes, impl)
+            impl.ctypes = GUARD
     if sys.version_info < (3, 11) and params.get("mode") == "racing":
         from stackscope import _lowlevel_cpython_310 as impl
 
@@ -372,11 +444,13 @@ def run_racing(ctx):
         return True
 
     guard = GUARD
+    new_layout = sys.version_info >= (3, 11)
     if guard is not None:
-        from stackscope import _lowlevel_cpython_310 as impl
+        if new_layout:
+            from stackscope import _lowlevel_cpython_311 as impl
+        else:
+            from stackscope import _lowlevel_cpython_310 as impl
         from ..world import stackdepth
-
-        me = threading.get_ident()
 
         def on_my_stack(fr):
             f = sys._getframe(1)
@@ -392,7 +466,16 @@ def run_racing(ctx):
 
         def watched_inspect(frame):
             # frames of this very thread cannot change under the inspecting code
-            if guard.log is not None or on_my_stack(frame):
+            if on_my_stack(frame):
+                return real_inspect(frame)
+            if new_layout:
+                prev = guard.frame
+                guard.frame = frame
+                try:
+                    return real_inspect(frame)
+                finally:
+                    guard.frame = prev
+            if guard.log is not None:
                 return real_inspect(frame)
             guard.log = stackdepth.OwnershipLog(frame, impl.FrameObjectStart, frame_done)
             try:
@@ -410,8 +493,8 @@ def run_racing(ctx):
             guard.stale = []
             raise Violation(
                 "c07_stale_pointer_dereferenced",
-                "%s: inspect_frame turned %d address(es) read earlier from the running frame's value stack into object references "
-                "after the frame had stopped owning them (use after free; the harness withheld the dereference)" % (what, n),
+                "%s: inspect_frame took %d reference(s) through value-stack addresses of the inspected frame that the frame did not own (any more) "
+                "at that moment (use after free / stale pointer; the harness withheld the dereference)" % (what, n),
                 {"events": events[-10:], "progress": state["progress"]},
             )
 
@@ -431,7 +514,10 @@ def run_racing(ctx):
                 for r in tg.W.frames:
                     fr = r.pyframe
                     if fr is not None and frame_done(fr):
-                        stackdepth.live_slots(fr, impl.FrameObjectStart, False)
+                        if new_layout:
+                            stackdepth.owned_slot_range(fr, impl)
+                        else:
+                            stackdepth.live_slots(fr, impl.FrameObjectStart, False)
         nobs = 2 + t.choose(5)
         for ob in range(nobs):
             live = [tg for tg in tgs if not tg.done]
@@ -540,6 +626,7 @@ def run_racing(ctx):
     finally:
         if guard is not None:
             guard.log = None
+            guard.frame = None
             _lowlevel.inspect_frame = real_inspect
             lowlevel.inspect_frame = real_inspect
             ctx.stat("casts_checked", guard.checked)
